@@ -121,7 +121,8 @@ func nontrivial(cs *caseSpec, r *result) bool {
 			}
 		}
 	}
-	return false
+	// or the height filter of availbTask had to pass over a peer
+	return someBehind(cs)
 }
 
 // ---------------------------------------------------------------- generators
@@ -410,6 +411,10 @@ func main() {
 		runChild(strings.TrimPrefix(opts.Extra, "child:"))
 		return
 	}
+	if strings.HasPrefix(opts.Extra, "lane:") {
+		runLane(strings.TrimPrefix(opts.Extra, "lane:"))
+		return
+	}
 	out := hlib.NewOut(opts.OutDir)
 	defer out.Close()
 	emit := func(cs *caseSpec, r *result) {
@@ -467,6 +472,19 @@ func main() {
 		}(i, cs)
 	}
 
+	// mixed reported heights: lane processes next to the fast lane
+	mixed := mixedCases(rng.Fork(), opts.Thorough())
+	var mixedRes []*result
+	wg.Add(1)
+	go func() {
+		defer wg.Done()
+		box := 45
+		if opts.Thorough() {
+			box = 600
+		}
+		mixedRes = runLanes(opts.OutDir, mixed, 3, box)
+	}()
+
 	w := newWorld()
 	healthy := true
 	run := func(cs *caseSpec) {
@@ -514,8 +532,15 @@ func main() {
 		}
 	}
 	wg.Wait()
+	mixedRun := 0
+	for i, r := range mixedRes {
+		if r != nil {
+			emit(mixed[i], r)
+			mixedRun++
+		}
+	}
 	for _, co := range slowRes {
 		emit(co.Spec, &co.Res)
 	}
-	fmt.Printf("hC35: %d cases (fast lane healthy: %v)\n", out.Count(), healthy)
+	fmt.Printf("hC35: %d cases (fast lane healthy: %v; mixed-height lanes ran %d of %d)\n", out.Count(), healthy, mixedRun, len(mixed))
 }
